@@ -21,7 +21,7 @@ r = sh('cargo test --offline -j 8 --no-fail-fast ' + ' '.join(pk) + ' -- --test-
 log = open(os.path.join(seed, 'confirm_regression.log')).read()
 failed = re.findall(r'^test (\S+) \.\.\. FAILED', log, re.M)
 print('regression failures with patch:', failed)
-demo_cmd = meta['demo_cmd']
+demo_cmd = meta['demo_cmd'].replace('git apply SEED/demo.diff && ', '')
 have_demo_diff = os.path.exists(os.path.join(seed, 'demo.diff'))
 if have_demo_diff:
     assert sh('git apply SEED/demo.diff').returncode == 0, 'demo does not apply'
